@@ -72,6 +72,10 @@ def run(ctx):
                     assert pixel_bytes(pf, rgb)[:3] == fixed[:3] or pf.bypp == 4
                     rects = [Rect(2, 2, 4, 4, E_RRE, struct.pack("!I", 0) + pixel_bytes(pf, rgb), [(2, 2, 4, 4, [rgb] * 16)], "rre"),
                              Rect(8, 2, 4, 4, E_CORRE, struct.pack("!I", 0) + pixel_bytes(pf, rgb), [(8, 2, 4, 4, [rgb] * 16)], "corre")]
+                    # ... and ZRLE packed-palette tiles whose LAST tile column is 1, 2, 6 or 7 pixels wide (rows padded to whole
+                    # bytes per TILE row, not per rectangle row), for each index width
+                    k_ = si % len(ACCEPTED_PF) + (si // len(ACCEPTED_PF))
+                    rects.append(enc_zrle(r, pf, 0, 8, [65, 66, 70, 71][k_ % 4], 3, force_palette=[3, 4, 2, 16, 5][k_ % 5]))
             for _ in range(0 if corpus else r.choice([1, 1, 2, 3, 4])):
                 j = r.random()
                 if j < .05:
